@@ -22,7 +22,7 @@ theorem so3_calc_S1inv_toM (b : Vec ℝ 3) :
   simp only [toM, SO3.calc_S1inv, memoM_eq, Mat.of_get]
   generalize SO3.S1invA (sqNorm b) = A
   fin_cases i <;> fin_cases j <;>
-    simp [mmul, vsum, SO3.hat, ident, mat3, K3] <;> ring
+    simp [mmul, msmul, vsum, SO3.hat, ident, mat3, K3] <;> ring
 
 /-- the matrix `−ad w + dr_expinv w` used by `SE3.log` is `calc_S1inv w` -/
 theorem se3_log_T (w : Vec ℝ 3) :
